@@ -82,6 +82,7 @@ NATIVE = {
     'c03n': {'tags': ['C03'], 'enum': 'byte_families::fam_c03', 'check': 'byte_families::run_c03(c)', 'n': 50000, 'family': 'section / segment ranges around the boundaries of a 60-byte file and around u64 overflow'},
     'c13i': {'tags': ['C13', 'C16'], 'enum': 'byte_families::fam_c13i', 'check': 'byte_families::run_c13i(c)', 'n': 300000, 'family': 'structured version sections iterated from several offsets and counts (three records each)'},
     'c02n': {'tags': ['C02'], 'enum': 'byte_families::fam_c02', 'check': 'run_c02(c)', 'n': 600000, 'family': 'every ABI structure decoded from buffers <= 80 bytes at offsets 0..8 and past the end, both classes and byte orders, against the layout table'},
+    'c16n': {'tags': ['C16'], 'enum': 'term_oracle::enumerate_term', 'check': 'term_oracle::check_term(c)', 'n': 140000, 'family': 'adversarial link structures of < 300 bytes: SysV chains with cycles / self-loops / out-of-range links, GNU chains without stop bit, VerNeed / VerDef records with next = 0 / overlapping / huge and counts up to u64::MAX, random notes and entry tables; clauses: returns within 3 s, at most one item per byte, at most the declared count'},
     'c13n': {'enum': 'slice_oracle::enumerate_symver', 'check': 'slice_oracle::check_symver(c)', 'n': _n('VERIF_SYMVER_CASES', '300000'),
              'family': 'version sections from kani/replay_src/slice_oracle.rs::enumerate_symver: 1-4 versym entries, 0-3 verneed records with one auxiliary record each, 0-3 verdef records, forward/zero/out-of-range links, hidden bits, unreadable strings; get_requirement/get_definition against a reference resolution'},
 }
@@ -177,9 +178,12 @@ macro_rules! fail { ($($a:tt)*) => { { #[cfg(kani)] { return Err(String::new());
     std::panic::set_hook(Box::new(|info| { let l = info.location().map(|l| format!("{}:{}", l.file(), l.line())).unwrap_or_default(); if let Ok(mut g) = PANIC_LOC.lock() { *g = format!("{} ({})", l, info.to_string().lines().last().unwrap_or("")); } }));
     match std::panic::catch_unwind(std::panic::AssertUnwindSafe(f)) {
         Ok(r) => r,
-        Err(_) => { let l = PANIC_LOC.lock().map(|g| g.clone()).unwrap_or_default();
-            if l.contains("elf/src/") { Err(format!("PANIC: the code under test panicked at {}", l)) } else { Err(format!("ORACLE-PANIC: the oracle could not digest the crate's answer (panic at {})", l)) } }
+        Err(_) => Err(panic_msg()),
     }
+}
+#[cfg(not(kani))] pub fn panic_msg() -> String {
+    let l = PANIC_LOC.lock().map(|g| g.clone()).unwrap_or_default();
+    if l.contains("elf/src/") { format!("PANIC: the code under test panicked at {}", l) } else { format!("ORACLE-PANIC: the oracle could not digest the crate's answer (panic at {})", l) }
 }
 '''
 
@@ -191,8 +195,8 @@ def setup(tmp):
     checks = '\n'.join(l for l in checks.splitlines() if not l.startswith('//!')) + '\n'
     checks = checks.replace('include!("layout_oracle.rs");', layout_oracle())
     # route the hand-written Err(format!(..)) through the cheap path under Kani as well
-    open(os.path.join(tmp, 'src', 'lib.rs'), 'w').write(LIB_HEAD + checks + gen_harness_rs(hs) + '\n#[cfg(not(kani))] pub mod stream_oracle;\n#[cfg(not(kani))] pub mod slice_oracle;\n#[cfg(not(kani))] pub mod byte_families;\n' + c02_dispatch())
-    for f_ in ('stream_oracle.rs', 'slice_oracle.rs', 'byte_families.rs'): shutil.copy(os.path.join(ROOT, 'kani', 'replay_src', f_), os.path.join(tmp, 'src', f_))
+    open(os.path.join(tmp, 'src', 'lib.rs'), 'w').write(LIB_HEAD + checks + gen_harness_rs(hs) + '\n#[cfg(not(kani))] pub mod stream_oracle;\n#[cfg(not(kani))] pub mod slice_oracle;\n#[cfg(not(kani))] pub mod byte_families;\n#[cfg(not(kani))] pub mod term_oracle;\n' + c02_dispatch())
+    for f_ in ('stream_oracle.rs', 'slice_oracle.rs', 'byte_families.rs', 'term_oracle.rs'): shutil.copy(os.path.join(ROOT, 'kani', 'replay_src', f_), os.path.join(tmp, 'src', f_))
     open(os.path.join(tmp, 'Cargo.toml'), 'w').write('[package]\nname = "elf-verif-replay"\nversion = "0.1.0"\nedition = "2021"\n\n[dependencies]\nelf = { path = "%s" }\n\n[lints.rust]\nunexpected_cfgs = { level = "allow", check-cfg = [\'cfg(kani)\'] }\n\n[workspace]\n' % os.path.join(tmp, 'elf'))
     return hs
 
@@ -277,7 +281,7 @@ fn main() {
         open(os.path.join(tmp, 'src', 'bin', 'replay.rs'), 'w').write(main)
         r = subprocess.run(['cargo', 'run', '--offline', '-q', '--release', '--bin', 'replay'], cwd=tmp, env=env, capture_output=True, text=True, timeout=600)
         panicked = r.returncode not in (0, 1) and 'panicked at' in r.stderr
-        extra_src = ''.join('\n// ---- src/%s\n' % f + open(os.path.join(tmp, 'src', f)).read() for f in ('stream_oracle.rs', 'slice_oracle.rs', 'byte_families.rs'))
+        extra_src = ''.join('\n// ---- src/%s\n' % f + open(os.path.join(tmp, 'src', f)).read() for f in ('stream_oracle.rs', 'slice_oracle.rs', 'byte_families.rs', 'term_oracle.rs'))
         return {'status': 'replayed-fails' if ((r.returncode == 1 and 'REPLAY FAILS' in r.stdout) or panicked) else 'replay-does-not-fail', 'bound': bound, 'wall_s': wall,
                 'inputs': case, 'replay_main': main, 'replay_output': (r.stdout[-1500:] + r.stderr[-500:]) if not panicked else ('REPLAY PANICS on the real crate: ' + r.stderr[-700:]),
                 'kani_cmd': 'cargo run --release --bin native_search   (native enumeration)', 'lib_rs': open(os.path.join(tmp, 'src', 'lib.rs')).read() + extra_src}
@@ -316,6 +320,7 @@ def search(harness, timeout=420, prop=None):
         shutil.rmtree(tmp, ignore_errors=True)
 
 PAIRING = [
+    (r'^C16\.(?!Ver(Need|Def)Iterator\.next)|^termination:', lambda m: 'c16n'),
     (r'^C04\.(u8|u16|u32|u64|i32|i64)\.', lambda m: ['c04n', 'c04_' + m.group(1)]),
     (r'^C15\.get_raw\.', lambda m: ['c15n', 'c15']),
     (r'^C15\.get\.', lambda m: ['c15n', 'c15_get']),
@@ -333,8 +338,8 @@ PAIRING = [
     (r'^C05\.(shdrs|phdrs|open)\.', lambda m: 'c05n'),
     (r'^C14\.(note|iter)\.', lambda m: ['c14n', 'c14_a4', 'c14_a8', 'c14_a3']),
     (r'^C03\.(section_range|segment_range|section_data|segment_data)\.', lambda m: ['c03n', 'c03_range']),
-    (r'^C1[36]\.VerNeedIterator\.next\.', lambda m: ['c13i', 'c13_need']),
-    (r'^C1[36]\.VerDefIterator\.next\.', lambda m: ['c13i', 'c13_def']),
+    (r'^C1[36]\.VerNeedIterator\.next\.', lambda m: ['c13i', 'c16n', 'c13_need']),
+    (r'^C1[36]\.VerDefIterator\.next\.', lambda m: ['c13i', 'c16n', 'c13_def']),
     (r'^C02\.parse_at\.[a-z_]+@ParseAt for (\w+)::parse_at$', lambda m: ['c02n', 'c02_' + m.group(1).lower()]),
     (r'^C02\.size_for@ParseAt for (\w+)::size_for$', lambda m: ['c02n', 'c02_' + m.group(1).lower()]),
     # panic-freedom obligations of the byte-level modules: the native families (a panic inside the crate counts for C01)
